@@ -150,10 +150,9 @@ func vC08Writer(mc *vC08Meta) *PointsWriter {
 
 // Infinite retention: routing against arbitrary existing groups.
 func VerifHarness_C08_MapShards() {
+	// (two existing groups with symbolic ranges did not finish in 20 minutes; the thorough tier
+	// widens replication and group durations instead, see vC08Data)
 	maxGroups, maxPoints := 1, 1
-	if vThorough() {
-		maxGroups, maxPoints = 2, 1
-	}
 	vC08Win = vChoice("timeWindow", 3)
 	nGroups := vLen("groups", 0, maxGroups)
 	data := vC08Data(nGroups, 0)
